@@ -9,9 +9,15 @@ python3 - <<'PY'
 import sys
 sys.path.insert(0, ".")
 from driver import common
-rc, out = common.build_coq()
+rc, out = common.build_coq(keep_going=True)
 print(out[-1500:])
 if rc != 0:
+    # a file that does not build only affects the checks that depend on it; each check
+    # rebuilds and audits its own Props/<id>.vo and reports a broken proof obligation itself
+    print("WARNING: some Coq files did not build")
+rc2, out2 = common.build_coq([common.EXTRACT_VO])
+if rc2 != 0:
+    print(out2[-3000:])
     sys.exit(1)
 common.build_modelrun()
 ok, out = common.build_harness()
